@@ -82,20 +82,30 @@ func checkAdditiveBounds(p *Program, r *Result, rule string, fns []*ssa.Function
 					continue
 				}
 				onTrue := pr.Succs[0] == d
-				lb, lc := addChain(cmp.X, 0)
-				rb, rc := addChain(cmp.Y, 0)
-				// normalise to: (base + c1) REL (T + c2), REL in {<, <=} holding on this side
+				// continuing side as f <= 0 / f < 0 with f linear over SSA values (subtraction forms included:
+				// bufSize-offset < 9 failing means offset + 9 <= bufSize)
 				var c1, c2 int64
 				var strict, ok2 bool
 				op := cmp.Op
 				if !onTrue {
 					op = map[token.Token]token.Token{token.LSS: token.GEQ, token.LEQ: token.GTR, token.GTR: token.LEQ, token.GEQ: token.LSS}[op]
 				}
-				switch {
-				case lb == base && (op == token.LSS || op == token.LEQ):
-					c1, c2, strict, ok2 = lc, rc, op == token.LSS, true
-				case rb == base && (op == token.GTR || op == token.GEQ):
-					c1, c2, strict, ok2 = rc, lc, op == token.GTR, true
+				f := newSumForm()
+				switch op {
+				case token.LSS, token.LEQ:
+					linearize(cmp.X, 1, f, 0)
+					linearize(cmp.Y, -1, f, 0)
+					strict = op == token.LSS
+				case token.GTR, token.GEQ:
+					linearize(cmp.Y, 1, f, 0)
+					linearize(cmp.X, -1, f, 0)
+					strict = op == token.GTR
+				default:
+					continue
+				}
+				f.clean()
+				if f.coef[fmtPtr(base)] == 1 && len(f.coef) >= 2 {
+					c1, c2, ok2 = f.k, 0, true
 				}
 				if !ok2 {
 					continue
